@@ -19,7 +19,7 @@ ACT = dict(RET=0, THROW_INT=1, THROW_STD=2, NONE=3, RETREF=4, RETCAP=5)
 MOCK = dict(M=0, MV=1, W=2)
 (OP_CREATE, OP_RELEASE, OP_CALL, OP_DESTROY_MOCK, OP_MOVE_MOCK, OP_DESTROY_SEQ, OP_MOVE_SEQ, OP_NEW_WATCHED, OP_DELETE_WATCHED,
  OP_COPY_WATCHED, OP_MOVECONS_WATCHED, OP_ASSIGN_WATCHED, OP_MOVEASSIGN_WATCHED, OP_MONITOR, OP_PUSH_TRACER, OP_POP_TRACER,
- OP_SET_REPORTER, OP_ARM_REPORTER) = range(18)
+ OP_SET_REPORTER, OP_ASSIGN_SEQ, OP_ARM_REPORTER) = range(19)
 
 F_KIND, F_HANDLER, F_REPCOUNT, F_REPCULPRIT, F_REPDETAIL, F_OKREP, F_TRACE, F_CLOG, F_QEXP, F_QSEQ, F_MISC = [1 << i for i in range(11)]
 F_REPORTS = F_REPCOUNT | F_REPCULPRIT | F_REPDETAIL
@@ -230,7 +230,7 @@ def plans_C05(g, tier):
 
 def plans_C06(g, tier):
     n = 3
-    alpha = [g.call(0, F1, a) for a in range(n)] + [g.release(i) for i in range(n)] + [g.op(OP_DESTROY_SEQ, s1=q) for q in (0, 1)] + [g.op(OP_MOVE_SEQ, s1=0)]
+    alpha = [g.call(0, F1, a) for a in range(n)] + [g.release(i) for i in range(n)] + [g.op(OP_DESTROY_SEQ, s1=q) for q in (0, 1)] + [g.op(OP_MOVE_SEQ, s1=0), g.op(OP_ASSIGN_SEQ, s1=0)]
     mask = F_QSEQ | F_REPCOUNT | F_REPCULPRIT | F_REPDETAIL | F_KIND
     if tier == 'quick':
         return [dict(name='seq3teardown', mask=mask, du=0, dm=5, alphabet=alpha, prefixes=seq_configs(g, 3, [(1, 1), (0, INF), (2, 2)], any_matchers=False)),
@@ -257,17 +257,20 @@ def c01_alphabet(g, slots, objs_mv=True):
     variants.append(dict(sh=dict(fn=F1, mk1='ANY', seqar=1), lo=1, hi=1))
     variants.append(dict(sh=dict(fn=F1, mk1='EQ', seqar=1), lo=0, hi=INF))
     variants.append(dict(sh=dict(fn=G1, mk1='ANY', nse=1), lo=1, hi=1))
+    variants.append(dict(sh=dict(fn=F1, mk1='ANY', seqar=2), lo=1, hi=2))
     for slot in slots:
         for v in variants:
             A.append(g.create(slot, g.shape(**v['sh']), obj=0, k1=1, lo=v['lo'], hi=v['hi'], s1=0, wmode=v.get('wmode', (0, 0, 0))))
         if objs_mv:
             for b in [(1, 1), (0, INF)]:
                 A.append(g.create(slot, g.shape(mock='MV', fn=F1, mk1='ANY'), obj=2, k1=1, lo=b[0], hi=b[1]))
+            A.append(g.create(slot, g.shape(mock='MV', fn=F1, mk1='ANY', seqar=1), obj=2, k1=1, lo=1, hi=1, s1=0))  # a sequence spanning two mock objects
         A.append(g.release(slot))
     A += [g.call(0, F1, a) for a in (0, 1, 2)] + [g.call(0, G1, 1)]
     if objs_mv:
         A += [g.call(2, F1, 1), g.call(3, F1, 1), g.op(OP_MOVE_MOCK, obj=2, k1=3), g.op(OP_MOVE_MOCK, obj=3, k1=2), g.op(OP_DESTROY_MOCK, obj=2), g.op(OP_DESTROY_MOCK, obj=3)]
     A.append(g.op(OP_DESTROY_MOCK, obj=0))
+    A.append(g.op(OP_ASSIGN_SEQ, s1=0))
     return A
 
 
@@ -371,7 +374,15 @@ def plans_C03(g, tier):
            g.create(3, g.shape(fn=F1, mk1='ANY', tform='RT', seqar=2, clauses='QTA'), obj=0, lo=1, hi=0, s1=0, s2=1)]
     seqd = g.create(2, g.shape(fn=G1, mk1='ANY', tform='RT', seqar=1), obj=0, lo=1, hi=1, s1=0)
     alpha = [g.call(0, F1, 1), g.call(0, F1, 2), g.release(0), g.release(1)] + bad + [seqd, g.call(0, G1, 1), g.op(OP_DESTROY_SEQ, s1=0), g.op(OP_DESTROY_MOCK, obj=0)]
-    return [dict(name='bounds', mask=M_C03, du=0, dm=7 if tier == 'quick' else 10, alphabet=alpha, prefixes=pre)]
+    # the same bookkeeping must hold after the mock object has been moved (active and saturated expectations follow it)
+    mpre = []
+    for kw, lo, hi in c03_forms(g):
+        if kw['tform'] in ('RT', 'DEFAULT', 'ALLOW', 'FORBID') or (kw['tform'] == 'N' and kw.get('tl') in (0, 2)):
+            mpre.append([g.create(0, g.shape(mock='MV', fn=F1, mk1='ANY', **kw), obj=2, k1=1, lo=lo, hi=hi)])
+            mpre.append([g.create(0, g.shape(mock='MV', fn=F1, mk1='ANY', tform='ALLOW'), obj=2), g.create(1, g.shape(mock='MV', fn=F1, mk1='EQ', **kw), obj=2, k1=1, lo=lo, hi=hi)])
+    malpha = [g.call(2, F1, 1), g.call(3, F1, 1), g.call(3, F1, 2), g.op(OP_MOVE_MOCK, obj=2, k1=3), g.op(OP_MOVE_MOCK, obj=3, k1=2), g.release(0), g.release(1), g.op(OP_DESTROY_MOCK, obj=3)]
+    return [dict(name='bounds', mask=M_C03, du=0, dm=7 if tier == 'quick' else 10, alphabet=alpha, prefixes=pre),
+            dict(name='moved', mask=M_C03, du=0, dm=5 if tier == 'quick' else 8, alphabet=malpha, prefixes=mpre)]
 
 
 # ---------------------------------------------------------------- C04
